@@ -308,6 +308,28 @@ func runC10(c c10Case) (fail string, stats map[string]bool) {
 				stats["delivered"] = true
 			}
 		}
+		// the same session's next data request, a small one that fits: nothing of the request before it (refused
+		// or not) may be joined to it
+		if fb, fct := s.pc.EncodePost([]Pkt{msgT("f")}, false); len(sr.Closes) == 0 && int64(len(fb)) <= c.L {
+			nBefore := len(sr.Msgs)
+			fe := s.pc.StartPostRaw(fb, fct, nil)
+			Settle()
+			fs := fe.Snap()
+			if snap.Status == 413 {
+				stats["data-request-after-a-refused-one"] = true
+			}
+			if m := maxDelivered(); int64(m) > c.L {
+				return fmt.Sprintf("after a data request of %d bytes (length %s) answered %d, the session's next request (%d bytes) led to a message of %d bytes being delivered, limit %d", len(body), c.Decl, snap.Status, len(fb), m, c.L), stats
+			}
+			if fs.Status == 413 {
+				return fmt.Sprintf("after a data request of %d bytes (length %s) answered %d, the session's next request of %d bytes (limit %d) was refused with 413", len(body), c.Decl, snap.Status, len(fb), c.L), stats
+			}
+			if fs.Status == 200 {
+				if got := sr.Msgs[nBefore:]; len(got) != 1 || !got[0].Equal(msgT("f")) {
+					return fmt.Sprintf("after a data request of %d bytes (length %s) answered %d, the session's next request carried one message \"f\" and was acknowledged; delivered: %s", len(body), c.Decl, snap.Status, pktsString(got)), stats
+				}
+			}
+		}
 	case "ws":
 		var s *c06Sess
 		if c.Upgraded {
@@ -551,7 +573,7 @@ func TestC10MaxPayload(t *testing.T) {
 			rt.Fatalf("%v: %s", c, clipStr(res.Leak, 1500))
 		}
 	})
-	col.RequireClasses(t, "413", "delivered", "connection-terminated", "header-only", "fragmented", "within-1-of-limit", "path.polling", "path.jsonp", "path.ws", "path.wt", "decl.lying-big", "decl.lying-small", "after-upgrade", "frame-header-split-in-transit", "second-server-built-from-the-same-options-object", "overlapping-a-held-upload", "compressed-frame-inflating-past-the-limit", "oversized-message-while-the-writer-is-blocked", "compressed-binary-frame-inflating-past-the-limit")
+	col.RequireClasses(t, "413", "data-request-after-a-refused-one", "delivered", "connection-terminated", "header-only", "fragmented", "within-1-of-limit", "path.polling", "path.jsonp", "path.ws", "path.wt", "decl.lying-big", "decl.lying-small", "after-upgrade", "frame-header-split-in-transit", "second-server-built-from-the-same-options-object", "overlapping-a-held-upload", "compressed-frame-inflating-past-the-limit", "oversized-message-while-the-writer-is-blocked", "compressed-binary-frame-inflating-past-the-limit")
 }
 
 func TestC10ChunkedFinding(t *testing.T) {
